@@ -20,8 +20,8 @@ func init() {
 }
 
 func checkC11(c *Ctx) {
-	c.Rule("R11.1", "order of effects: Enabled and level-range guards dominate every counter access; table dimensions match the guards", 3)
-	c.Rule("R11.2", "one decision, one hook, applied as reported; hooks only for in-range levels", 4)
+	c.Rule("R11.1", "order of effects: Enabled and level-range guards dominate every counter access; table dimensions match the guards", 2)
+	c.Rule("R11.2", "one decision, one hook, applied as reported; hooks only for in-range levels", 1)
 	c.Rule("R11.3", "shared budget: With copies counts/tick/first/thereafter/hook; constructor allocates counts once and defaults the hook", 2)
 	c.Rule("R11.4", "the modulo is evaluated only under thereafter != 0", 1)
 	c.Rule("R11.5", "bucket key: level offset and full-message hash", 2)
@@ -35,51 +35,6 @@ func checkC11(c *Ctx) {
 	name := fn.String()
 	minL, _ := c.ConstVal(CorePath, "_minLevel")
 	maxL, _ := c.ConstVal(CorePath, "_maxLevel")
-	var get, inc, inner *ssa.Call
-	var inners []*ssa.Call
-	var hooks []*ssa.Call
-	for _, cl := range CallsDeep(fn) {
-		call, _ := cl.(*ssa.Call)
-		switch {
-		case IsCallTo(cl, "(*go.uber.org/zap/zapcore.counters).get"):
-			get = call
-		case IsCallTo(cl, "(*go.uber.org/zap/zapcore.counter).IncCheckReset"):
-			inc = call
-		case IsCallTo(cl, "(go.uber.org/zap/zapcore.Core).Check"):
-			inner = call
-			inners = append(inners, call)
-		default:
-			if call != nil && Desc(call.Call.Value) == "s.hook" {
-				hooks = append(hooks, call)
-			}
-		}
-	}
-	if get == nil || inc == nil || inner == nil || len(hooks) != 2 {
-		c.Bad("R11.1", name, "shape", fn.Pos(), "expected counts.get, IncCheckReset, Core.Check and two hook calls (hooks=%d)", len(hooks))
-		return
-	}
-	lo, hi := "ent.Level >= "+itoa(int(minL)), "ent.Level <= "+itoa(int(maxL))
-	en := "Enabled(s.Core, ent.Level)"
-	hasAll := func(i ssa.Instruction, want ...string) bool {
-		atoms := AtomStrings(Guards(i))
-		for _, w := range want {
-			ok := false
-			for _, a := range atoms {
-				if a == w {
-					ok = true
-				}
-			}
-			if !ok {
-				return false
-			}
-		}
-		return true
-	}
-	c.Check(hasAll(get, en, lo, hi) && hasAll(inc, en, lo, hi), "R11.1", name, "guards-before-counter", get.Pos(), "the counter is touched only for enabled entries with _minLevel ≤ level ≤ _maxLevel (guards %v): disabled entries consume no budget, out-of-range levels cannot index out of bounds", AtomStrings(Guards(get)))
-	a := Args(get)
-	c.Check(Desc(a[0]) == "s.counts" && Desc(a[1]) == "ent.Level" && Desc(a[2]) == "ent.Message", "R11.1", name, "key-is-level-and-message", get.Pos(), "bucket key is (entry level, entry message) (%s, %s)", Desc(a[1]), Desc(a[2]))
-	ia := Args(inc)
-	c.Check(Strip(ia[0]) == ssa.Value(get) && Desc(ia[1]) == "ent.Time" && Desc(ia[2]) == "s.tick", "R11.1", name, "window-by-entry-time", inc.Pos(), "the window is judged by the entry's own timestamp and the sampler's tick (%s, %s)", Desc(ia[1]), Desc(ia[2]))
 	// table dimensions
 	cs := c.Named(CorePath, "counters")
 	if c.Anchor("R11.1", "zapcore.counters", cs != nil) {
@@ -93,109 +48,263 @@ func checkC11(c *Ctx) {
 		cpl, _ := c.ConstVal(CorePath, "_countersPerLevel")
 		c.Check(ok1 && outer.Len() == maxL-minL+1 && innerLen == cpl, "R11.1", CorePath+".counters", "dimensions", cs.Obj().Pos(), "the table has %d level rows (= _maxLevel − _minLevel + 1 = %d) and %d buckets (= _countersPerLevel)", outer.Len(), maxL-minL+1, innerLen)
 	}
-	// out-of-range levels go straight to Core.Check: inner is reachable when range guard fails
-	okInner, outOfRange := true, false
-	for _, in := range inners {
-		okInner = okInner && Strip(Args(in)[1]) == ssa.Value(fn.Params[1]) && Strip(Args(in)[2]) == ssa.Value(fn.Params[2]) && hasAll(in, en)
-		if !hasAll(in, lo) || !hasAll(in, hi) {
-			outOfRange = true
-		}
-	}
-	c.Check(okInner && outOfRange, "R11.1", name, "out-of-range-pass-unsampled", inner.Pos(), "Core.Check(ent, ce) is reached for every enabled entry not dropped, including out-of-range levels")
-
-	// ---------------- R11.2 ----------------
 	dropped, _ := c.ConstVal(CorePath, "LogDropped")
 	sampled, _ := c.ConstVal(CorePath, "LogSampled")
-	var hd, hs *ssa.Call
-	for _, h := range hooks {
-		v, _ := ConstInt(h.Call.Args[1])
-		if v == dropped {
-			hd = h
-		}
-		if v == sampled {
-			hs = h
-		}
-	}
-	if hd == nil || hs == nil {
-		c.Bad("R11.2", name, "hook-decisions", fn.Pos(), "expected one hook call with LogDropped and one with LogSampled")
+	if len(fn.Params) != 3 {
+		c.Und("R11.1", name, "params", fn.Pos(), "unexpected parameter list")
 		return
 	}
-	is := func(x *ssa.Call) func(ssa.Instruction) bool {
-		return func(i ssa.Instruction) bool {
-			if x == inner {
-				for _, in := range inners {
-					if i == ssa.Instruction(in) {
-						return true
-					}
-				}
+	recvN, entP, ceP := fn.Params[0].Name(), fn.Params[1], fn.Params[2]
+	entN := entP.Name()
+	traces := func(st *ConcState, v ssa.Value, pred func(ssa.Value) bool) bool {
+		v = Strip(v)
+		for k := 0; k < 12; k++ {
+			if pred(v) {
+				return true
+			}
+			nx := st.Step(v)
+			if nx == nil {
 				return false
 			}
-			return i == ssa.Instruction(x)
+			v = Strip(nx)
+		}
+		return false
+	}
+	isCallTo := func(full ...string) func(ssa.Value) bool {
+		return func(v ssa.Value) bool {
+			cl, ok := v.(*ssa.Call)
+			return ok && IsCallTo(cl, full...)
 		}
 	}
-	either := func(i ssa.Instruction) bool { return i == ssa.Instruction(hd) || i == ssa.Instruction(hs) }
-	c.Check(!ExistsPath(fn, inc, IsReturn, either), "R11.2", name, "hook-on-every-decision", inc.Pos(), "every path from the counter update to a return calls the hook")
-	c.Check(!ExistsPath(fn, hd, either, nil) && !ExistsPath(fn, hs, either, nil), "R11.2", name, "hook-once", hd.Pos(), "no path calls the hook twice")
-	c.Check(!ExistsPath(fn, hd, is(inner), nil), "R11.2", name, "dropped-means-not-forwarded", hd.Pos(), "after reporting LogDropped the entry is never forwarded to the wrapped core")
-	okRet := true
-	for _, r := range Returns(fn) {
-		if ExistsPath(fn, hd, func(i ssa.Instruction) bool { return i == ssa.Instruction(r) }, nil) {
-			okRet = okRet && Strip(RetVals(r)[0]) == ssa.Value(fn.Params[2])
+	const getF, incF, chkF = "(*go.uber.org/zap/zapcore.counters).get", "(*go.uber.org/zap/zapcore.counter).IncCheckReset", "(go.uber.org/zap/zapcore.Core).Check"
+	getFn := c.Method(CorePath, "counters", "get")
+	// Explore every path of Check (helpers inline, counters.get and IncCheckReset opaque) with the entry level fixed,
+	// for each level of the valid range and one below / one above it.
+	nPaths := 0
+	var badOrder, badHook, badPred, badDiv, badOther []string
+	for L := minL - 1; L <= maxL+1; L++ {
+		lv := L
+		inRange := lv >= minL && lv <= maxL
+		seqs, trunc := ConcPaths(fn, ConcCfg{
+			Inline: func(h *ssa.Function) bool { return h != getFn },
+			Conc: func(d string) (int64, bool) {
+				if d == entN+".Level" {
+					return lv, true
+				}
+				return 0, false
+			},
+			Event: func(in ssa.Instruction, st *ConcState) string {
+				switch x := in.(type) {
+				case *ssa.Call:
+					a := Args(x)
+					switch {
+					case IsCallTo(x, getF):
+						if st.Desc(a[0]) == recvN+".counts" && st.Desc(a[1]) == entN+".Level" && st.Desc(a[2]) == entN+".Message" {
+							return "get"
+						}
+						return "get(" + st.Desc(a[1]) + "," + st.Desc(a[2]) + ")"
+					case IsCallTo(x, incF):
+						if traces(st, a[0], isCallTo(getF)) && st.Desc(a[1]) == entN+".Time" && st.Desc(a[2]) == recvN+".tick" {
+							return "inc"
+						}
+						return "inc(" + st.Desc(a[1]) + "," + st.Desc(a[2]) + ")"
+					case IsCallTo(x, chkF):
+						if traces(st, a[1], func(v ssa.Value) bool { return v == ssa.Value(entP) }) && traces(st, a[2], func(v ssa.Value) bool { return v == ssa.Value(ceP) }) && st.Desc(a[0]) == recvN+".Core" {
+							return "forward"
+						}
+						return "forward(" + st.Desc(a[0]) + "," + st.Desc(a[1]) + "," + st.Desc(a[2]) + ")"
+					case st.Desc(x.Call.Value) == recvN+".hook" && !x.Call.IsInvoke():
+						d := "?" + st.Desc(a[1])
+						if k, ok := st.Int(a[1]); ok {
+							switch k {
+							case dropped:
+								d = "dropped"
+							case sampled:
+								d = "sampled"
+							default:
+								d = itoa(int(k))
+							}
+						}
+						if !traces(st, a[0], func(v ssa.Value) bool { return v == ssa.Value(entP) }) {
+							d += ",entry=" + st.Desc(a[0])
+						}
+						return "hook(" + d + ")"
+					}
+				case *ssa.BinOp:
+					if x.Op == token.REM || x.Op == token.QUO {
+						if st.Desc(x.Y) == recvN+".thereafter" {
+							return "mod"
+						}
+						return "mod(" + st.Desc(x.Y) + ")"
+					}
+				case *ssa.Return:
+					switch {
+					case traces(st, x.Results[0], func(v ssa.Value) bool { return v == ssa.Value(ceP) }):
+						return "ret(ce)"
+					case traces(st, x.Results[0], isCallTo(chkF)):
+						return "ret(forward)"
+					}
+					return "ret(" + st.Desc(x.Results[0]) + ")"
+				}
+				return ""
+			},
+			Branch: func(cond ssa.Value, taken bool, st *ConcState) string {
+				pol := taken
+				for k := 0; k < 8; k++ {
+					if u, ok := cond.(*ssa.UnOp); ok && u.Op == token.NOT {
+						cond, pol = u.X, !pol
+						continue
+					}
+					if nx := st.Step(cond); nx != nil {
+						cond = nx
+						continue
+					}
+					break
+				}
+				tf := func(name string, v bool) string {
+					if v {
+						return name + "=T"
+					}
+					return name + "=F"
+				}
+				if cl, ok := cond.(*ssa.Call); ok && isEnabledCall(cl) {
+					if pol {
+						return "enabled"
+					}
+					return "disabled"
+				}
+				bo, ok := cond.(*ssa.BinOp)
+				if !ok {
+					return "cond(" + st.Desc(cond) + ")"
+				}
+				isN := func(v ssa.Value) bool { return traces(st, v, isCallTo(incF)) }
+				F, T := recvN+".first", recvN+".thereafter"
+				x, y, op := bo.X, bo.Y, bo.Op
+				if isN(y) && st.Desc(x) == F {
+					x, y, op = y, x, swapOp(op)
+				}
+				if isN(x) && st.Desc(y) == F {
+					switch op {
+					case token.GTR:
+						return tf("beyond-first", pol)
+					case token.LEQ:
+						return tf("beyond-first", !pol)
+					}
+				}
+				if st.Desc(y) == T && st.Desc(x) == "0" {
+					x, y, op = y, x, swapOp(op)
+				}
+				if st.Desc(x) == T && st.Desc(y) == "0" {
+					switch op {
+					case token.EQL, token.LEQ:
+						return tf("thereafter-zero", pol)
+					case token.NEQ, token.GTR:
+						return tf("thereafter-zero", !pol)
+					}
+				}
+				if rem, ok := Strip(x).(*ssa.BinOp); ok && rem.Op == token.REM && st.Desc(y) == "0" && st.Desc(rem.Y) == T {
+					if sub, ok := Strip(rem.X).(*ssa.BinOp); ok && sub.Op == token.SUB && isN(sub.X) && st.Desc(sub.Y) == F {
+						switch op {
+						case token.NEQ, token.GTR:
+							return tf("off-cycle", pol)
+						case token.EQL:
+							return tf("off-cycle", !pol)
+						}
+					}
+				}
+				return "cond(" + st.Desc(cond) + ")"
+			},
+		})
+		if trunc || len(seqs) == 0 {
+			c.Und("R11.1", name, "paths@level="+itoa(int(lv)), fn.Pos(), "path exploration of sampler.Check incomplete (%d sequences, truncated=%v)", len(seqs), trunc)
+			return
 		}
-	}
-	c.Check(okRet, "R11.2", name, "dropped-returns-incoming", hd.Pos(), "the dropped path returns the incoming checked entry unchanged")
-	c.Check(!ExistsPath(fn, hs, IsReturn, is(inner)), "R11.2", name, "sampled-means-forwarded", hs.Pos(), "after reporting LogSampled the entry is always forwarded")
-	c.Check(hasAll(hd, lo, hi) && hasAll(hs, lo, hi) && Dominates(inc, hd) && Dominates(inc, hs) && Strip(hd.Call.Args[0]) == ssa.Value(fn.Params[1]) && Strip(hs.Call.Args[0]) == ssa.Value(fn.Params[1]), "R11.2", name, "hook-only-for-decided-entries", hs.Pos(), "both hook calls happen only for in-range levels, after the counter update, with the entry itself (out-of-range entries are not decided, so no hook)")
-
-	// ---------------- R11.4 / R11.7 ----------------
-	N := Desc(inc)
-	F, T := "s.first", "s.thereafter"
-	var rem *ssa.BinOp
-	InstrsDeep(fn, func(i ssa.Instruction) {
-		if b, ok := i.(*ssa.BinOp); ok && (b.Op == token.REM || b.Op == token.QUO) {
-			rem = b
-		}
-	})
-	if rem == nil {
-		c.Bad("R11.4", name, "modulo", fn.Pos(), "no modulo operation found")
-	} else {
-		remY := ""
-		Bound(func() { remY = Desc(rem.Y) })
-		hasT := false
-		Bound(func() { hasT = hasAll(rem, T+" != 0") })
-		c.Check(hasT && remY == T, "R11.4", name, "no-division-by-zero", rem.Pos(), "(n − first) %% thereafter is evaluated only where thereafter ≠ 0 was established (guards %v)", AtomStrings(Guards(rem)))
-	}
-	common := map[string]bool{en: true, lo: true, hi: true}
-	norm := func(b *ssa.BasicBlock) []string {
-		var out []string
-		for _, conj := range PathConds(b) {
-			var keep []string
-			for _, a := range conj {
-				if !common[a] {
-					keep = append(keep, a)
+		for _, sq := range seqs {
+			nPaths++
+			tag := "level=" + itoa(int(lv)) + ": " + sq
+			ev := strings.Split(sq, " ; ")
+			switch {
+			case ev[0] == "disabled":
+				if sq != "disabled ; ret(ce)" {
+					badOrder = append(badOrder, tag)
+				}
+				continue
+			case ev[0] != "enabled":
+				badOrder = append(badOrder, tag)
+				continue
+			}
+			if !inRange {
+				if sq != "enabled ; forward ; ret(forward)" {
+					badOrder = append(badOrder, tag)
+				}
+				continue
+			}
+			if len(ev) < 5 || ev[1] != "get" || ev[2] != "inc" {
+				badOrder = append(badOrder, tag)
+				continue
+			}
+			// three-valued evaluation of: drop = beyond-first ∧ (thereafter-zero ∨ off-cycle)
+			val := map[string]int{} // 1 true, -1 false
+			hookAt, nHook, decision := -1, 0, ""
+			okDiv := true
+			var rest []string
+			for i, e := range ev[3:] {
+				switch {
+				case strings.HasSuffix(e, "=T") || strings.HasSuffix(e, "=F"):
+					if hookAt < 0 {
+						nm := e[:len(e)-2]
+						if e[len(e)-1] == 'T' {
+							val[nm] = 1
+						} else {
+							val[nm] = -1
+						}
+					}
+				case e == "mod":
+					if val["thereafter-zero"] != -1 {
+						okDiv = false
+					}
+				case strings.HasPrefix(e, "hook("):
+					nHook++
+					hookAt = i
+					decision = strings.TrimSuffix(strings.TrimPrefix(e, "hook("), ")")
+					rest = nil
+				case strings.HasPrefix(e, "cond(") || strings.HasPrefix(e, "mod("):
+					badOther = append(badOther, tag)
+				default:
+					rest = append(rest, e)
 				}
 			}
-			sort.Strings(keep)
-			out = append(out, strings.Join(keep, " ∧ "))
+			if !okDiv {
+				badDiv = append(badDiv, tag)
+			}
+			and3 := func(a, b int) int {
+				if a == -1 || b == -1 {
+					return -1
+				}
+				if a == 1 && b == 1 {
+					return 1
+				}
+				return 0
+			}
+			or3 := func(a, b int) int { return -and3(-a, -b) }
+			drop := and3(val["beyond-first"], or3(val["thereafter-zero"], val["off-cycle"]))
+			tail := strings.Join(rest, " ; ")
+			switch {
+			case nHook != 1:
+				badHook = append(badHook, tag)
+			case decision == "dropped" && tail != "ret(ce)", decision == "sampled" && tail != "forward ; ret(forward)", decision != "dropped" && decision != "sampled":
+				badHook = append(badHook, tag)
+			}
+			if nHook == 1 && (decision == "dropped" && drop != 1 || decision == "sampled" && drop != -1) {
+				badPred = append(badPred, tag)
+			}
 		}
-		sort.Strings(out)
-		return out
 	}
-	modNE := "((" + N + " - " + F + ") % " + T + ") != 0"
-	modEQ := "((" + N + " - " + F + ") % " + T + ") == 0"
-	wantDrop := []string{
-		strings.Join(sortedS(N+" > "+F, T+" == 0"), " ∧ "),
-		strings.Join(sortedS(N+" > "+F, T+" != 0", modNE), " ∧ "),
-	}
-	sort.Strings(wantDrop)
-	wantKeep := []string{
-		F + " >= " + N,
-		strings.Join(sortedS(N+" > "+F, T+" != 0", modEQ), " ∧ "),
-	}
-	sort.Strings(wantKeep)
-	gotDrop, gotKeep := norm(hd.Block()), norm(hs.Block())
-	c.Check(strings.Join(gotDrop, " ∨ ") == strings.Join(wantDrop, " ∨ "), "R11.7", name, "drop-predicate", hd.Pos(), "an entry is dropped exactly when n > first ∧ (thereafter = 0 ∨ (n − first) mod thereafter ≠ 0), n being this entry's IncCheckReset result: got %v", gotDrop)
-	c.Check(strings.Join(gotKeep, " ∨ ") == strings.Join(wantKeep, " ∨ "), "R11.7", name, "admit-predicate", hs.Pos(), "an entry is admitted exactly when n ≤ first ∨ (thereafter ≠ 0 ∧ (n − first) mod thereafter = 0): got %v", gotKeep)
+	c.Check(len(badOrder) == 0, "R11.1", name, "order-of-effects", fn.Pos(), "over all %d paths of sampler.Check (entry level fixed to each of %d..%d, helpers inline): a disabled entry returns the incoming entry before any counter access; an enabled entry with an out-of-range level is forwarded unsampled with no counter access and no hook; an enabled in-range entry looks up the bucket of (its level, its message) and counts with its own timestamp and the sampler's tick before anything else (offending: %v)", nPaths, minL-1, maxL+1, badOrder)
+	c.Check(len(badHook) == 0, "R11.2", name, "one-decision-one-hook-applied", fn.Pos(), "every decided path calls the hook exactly once, with the entry; LogDropped is followed by returning the incoming entry without forwarding, LogSampled by forwarding (ent, ce) to the wrapped core and returning its result (offending: %v)", badHook)
+	c.Check(len(badDiv) == 0, "R11.4", name, "no-division-by-zero", fn.Pos(), "the modulo by thereafter is only evaluated on paths that established thereafter ≠ 0 (offending: %v)", badDiv)
+	c.Check(len(badPred) == 0, "R11.7", name, "admission-predicate", fn.Pos(), "on every decided path the conditions established before the hook determine drop = n > first ∧ (thereafter = 0 ∨ (n − first) mod thereafter ≠ 0), n being this entry's IncCheckReset result, and the reported decision equals it (offending: %v)", badPred)
+	c.Check(len(badOther) == 0, "R11.7", name, "no-other-condition", fn.Pos(), "the decision depends on nothing but the three comparisons of the documented predicate (offending: %v)", badOther)
 
 	// ---------------- R11.3 ----------------
 	c11Shared(c)
@@ -238,54 +347,92 @@ func c11Key(c *Ctx, minL int64) {
 	for _, r := range Returns(g) {
 		d := Desc(RetVals(r)[0])
 		want := "cs[(lvl - " + itoa(int(minL)) + ")][(fnv32a(key) % " + itoa(int(cpl)) + ")]"
+		if cpl > 0 && cpl&(cpl-1) == 0 && d == "cs[(lvl - "+itoa(int(minL))+")][(fnv32a(key) & "+itoa(int(cpl-1))+")]" {
+			d = want // x & (2^k − 1) = x mod 2^k for unsigned x
+		}
 		c.Check(d == want, "R11.5", g.String(), "index", r.Pos(), "bucket = table[level − _minLevel][fnv32a(message) mod _countersPerLevel] (%s)", d)
 	}
-	// hash loop: index phi 0..len(s) step 1, reading s[i]
-	var idx *ssa.Phi
+	// hash loop: an index running over [0, len(s)) in steps of 1, reading s[i] (or b[i] of b = []byte(s)); a range
+	// over the string itself would visit rune starts only
+	isS := func(v ssa.Value) bool {
+		v = Strip(v)
+		if v == ssa.Value(h.Params[0]) {
+			return true
+		}
+		if cv, ok := v.(*ssa.Convert); ok && Strip(cv.X) == ssa.Value(h.Params[0]) {
+			if sl, ok := types.Unalias(cv.Type()).Underlying().(*types.Slice); ok {
+				if b, ok := types.Unalias(sl.Elem()).Underlying().(*types.Basic); ok && b.Kind() == types.Uint8 {
+					return true
+				}
+			}
+		}
+		return false
+	}
 	var reads []ssa.Value
 	AllInstrs(h, func(i ssa.Instruction) {
 		switch x := i.(type) {
 		case *ssa.Lookup:
-			if x.X == ssa.Value(h.Params[0]) {
+			if isS(x.X) {
 				reads = append(reads, x.Index)
 			}
 		case *ssa.Index:
-			if x.X == ssa.Value(h.Params[0]) {
+			if isS(x.X) {
+				reads = append(reads, x.Index)
+			}
+		case *ssa.IndexAddr:
+			if isS(x.X) {
 				reads = append(reads, x.Index)
 			}
 		}
 	})
 	usesRange := false
 	AllInstrs(h, func(i ssa.Instruction) {
-		if _, ok := i.(*ssa.Range); ok {
-			usesRange = true
+		if r, ok := i.(*ssa.Range); ok {
+			if _, isStr := types.Unalias(r.X.Type()).Underlying().(*types.Basic); isStr {
+				usesRange = true
+			}
 		}
 	})
 	okLoop := false
 	detail := ""
 	if len(reads) == 1 {
-		if ph, ok := reads[0].(*ssa.Phi); ok {
-			idx = ph
-		}
-	}
-	if idx != nil {
-		var seed, step int64 = -1, 0
-		for _, e := range idx.Edges {
-			if v, ok := ConstInt(e); ok {
-				seed = v
-			} else if b, ok := e.(*ssa.BinOp); ok && b.Op == token.ADD && b.X == ssa.Value(idx) {
-				step, _ = ConstInt(b.Y)
+		ix := reads[0]
+		var ph *ssa.Phi
+		wantSeed := int64(0)
+		if p, ok := ix.(*ssa.Phi); ok {
+			ph = p
+		} else if b, ok := ix.(*ssa.BinOp); ok && b.Op == token.ADD {
+			if p, ok := b.X.(*ssa.Phi); ok {
+				if k, ok := ConstInt(b.Y); ok && k == 1 {
+					ph, wantSeed = p, -1
+				}
 			}
 		}
-		blk := idx.Block()
-		cond := ""
-		if iff, ok := blk.Instrs[len(blk.Instrs)-1].(*ssa.If); ok {
-			cond = Desc(iff.Cond)
+		if ph != nil {
+			var seed, step int64 = -99, 0
+			for _, e := range ph.Edges {
+				if v, ok := ConstInt(e); ok {
+					seed = v
+				} else if b, ok := e.(*ssa.BinOp); ok && b.Op == token.ADD && b.X == ssa.Value(ph) {
+					step, _ = ConstInt(b.Y)
+				}
+			}
+			blk := ph.Block()
+			condOK := false
+			cond := ""
+			if iff, ok := blk.Instrs[len(blk.Instrs)-1].(*ssa.If); ok {
+				cond = Desc(iff.Cond)
+				if bo, ok := iff.Cond.(*ssa.BinOp); ok && bo.Op == token.LSS && bo.X == ix {
+					if ln, ok := Strip(bo.Y).(*ssa.Call); ok && CallBuiltin(ln) == "len" && isS(ln.Call.Args[0]) {
+						condOK = true
+					}
+				}
+			}
+			okLoop = seed == wantSeed && step == 1 && condOK
+			detail = "index from " + itoa(int(seed-wantSeed)) + " step " + itoa(int(step)) + " while " + cond
 		}
-		okLoop = seed == 0 && step == 1 && cond == "("+Desc(idx)+" < len(s))"
-		detail = "from " + itoa(int(seed)) + " step " + itoa(int(step)) + " while " + cond
 	}
-	c.Check(okLoop && !usesRange, "R11.5", h.String(), "hashes-every-byte", h.Pos(), "the hash consumes s[i] for every byte index i in [0, len(s)) (%s; a range-over-string loop would visit only rune starts: %v)", detail, usesRange)
+	c.Check(okLoop && !usesRange, "R11.5", h.String(), "hashes-every-byte", h.Pos(), "the hash consumes the byte at every index in [0, len(s)) (%s; a range-over-string loop would visit only rune starts: %v)", detail, usesRange)
 	// FNV-1a constants
 	off, prime := false, false
 	AllInstrs(h, func(i ssa.Instruction) {
@@ -312,64 +459,134 @@ func c11Window(c *Ctx) {
 	}
 	name := fn.String()
 	t := fn.Params[1]
-	var load, cas, store *ssa.Call
-	var adds []*ssa.Call
-	wall := false
-	for _, cl := range Calls(fn) {
-		call, _ := cl.(*ssa.Call)
-		switch {
-		case IsCallTo(cl, "(*sync/atomic.Int64).Load"):
-			load = call
-		case IsCallTo(cl, "(*sync/atomic.Int64).CompareAndSwap"):
-			cas = call
-		case IsCallTo(cl, "(*sync/atomic.Uint64).Store"):
-			store = call
-		case IsCallTo(cl, "(*sync/atomic.Uint64).Add"):
-			adds = append(adds, call)
-		case IsCallTo(cl, "time.Now"):
-			wall = true
+	tn := "UnixNano(" + t.Name() + ")"
+	traces := func(st *ConcState, v ssa.Value, full string) bool {
+		v = Strip(v)
+		for k := 0; k < 12; k++ {
+			if cl, ok := v.(*ssa.Call); ok && IsCallTo(cl, full) {
+				return true
+			}
+			nx := st.Step(v)
+			if nx == nil {
+				return false
+			}
+			v = Strip(nx)
 		}
+		return false
 	}
-	if load == nil || cas == nil || store == nil || len(adds) != 2 {
-		c.Bad("R11.8", name, "shape", fn.Pos(), "expected Load, CompareAndSwap, Store and two Add calls (adds=%d)", len(adds))
+	kOf := func(st *ConcState, v ssa.Value) string {
+		if k, ok := st.Int(v); ok {
+			return itoa(int(k))
+		}
+		return "?" + st.Desc(v)
+	}
+	seqs, trunc := ConcPaths(fn, ConcCfg{
+		Event: func(in ssa.Instruction, st *ConcState) string {
+			switch x := in.(type) {
+			case *ssa.Call:
+				a := Args(x)
+				switch {
+				case IsCallTo(x, "(*sync/atomic.Int64).Load"):
+					if st.Desc(a[0]) == "c.resetAt" {
+						return "load"
+					}
+					return "load(" + st.Desc(a[0]) + ")"
+				case IsCallTo(x, "(*sync/atomic.Int64).CompareAndSwap"):
+					okOld := traces(st, a[1], "(*sync/atomic.Int64).Load")
+					nw := st.Desc(a[2])
+					okNew := nw == "("+tn+" + Nanoseconds(tick))" || nw == "(Nanoseconds(tick) + "+tn+")"
+					if st.Desc(a[0]) == "c.resetAt" && okOld && okNew {
+						return "cas"
+					}
+					return "cas(" + st.Desc(a[0]) + "," + st.Desc(a[1]) + "," + nw + ")"
+				case IsCallTo(x, "(*sync/atomic.Int64).Store"):
+					return "store-resetAt"
+				case IsCallTo(x, "(*sync/atomic.Uint64).Store"):
+					return "store(" + kOf(st, a[1]) + ")"
+				case IsCallTo(x, "(*sync/atomic.Uint64).Add"):
+					return "add(" + kOf(st, a[1]) + ")"
+				case IsCallTo(x, "time.Now"):
+					return "wall-clock"
+				}
+			case *ssa.Return:
+				if traces(st, x.Results[0], "(*sync/atomic.Uint64).Add") {
+					return "ret(add)"
+				}
+				return "ret(" + kOf(st, x.Results[0]) + ")"
+			}
+			return ""
+		},
+		Branch: func(cond ssa.Value, taken bool, st *ConcState) string {
+			pol := taken
+			for k := 0; k < 8; k++ {
+				if u, ok := cond.(*ssa.UnOp); ok && u.Op == token.NOT {
+					cond, pol = u.X, !pol
+					continue
+				}
+				if nx := st.Step(cond); nx != nil {
+					cond = nx
+					continue
+				}
+				break
+			}
+			if cl, ok := cond.(*ssa.Call); ok && IsCallTo(cl, "(*sync/atomic.Int64).CompareAndSwap") {
+				if pol {
+					return "won"
+				}
+				return "lost"
+			}
+			if bo, ok := cond.(*ssa.BinOp); ok {
+				x, y, op := bo.X, bo.Y, bo.Op
+				if st.Desc(x) == tn {
+					x, y, op = y, x, swapOp(op)
+				}
+				if traces(st, x, "(*sync/atomic.Int64).Load") && st.Desc(y) == tn {
+					// window end (x) compared with the entry's timestamp (y); the inclusive/exclusive choice is not decided
+					switch op {
+					case token.GTR, token.GEQ:
+						if pol {
+							return "open"
+						}
+						return "elapsed"
+					case token.LSS, token.LEQ:
+						if pol {
+							return "elapsed"
+						}
+						return "open"
+					}
+				}
+				return "other-condition(" + st.Desc(cond) + ")"
+			}
+			return "other-condition(" + st.Desc(cond) + ")"
+		},
+	})
+	if trunc || len(seqs) == 0 {
+		c.Und("R11.8", name, "protocol", fn.Pos(), "path exploration of IncCheckReset incomplete (%d sequences, truncated=%v)", len(seqs), trunc)
 		return
 	}
-	tn := "UnixNano(" + t.Name() + ")"
-	c.Check(!wall, "R11.8", name, "no-wall-clock", fn.Pos(), "the window is driven by the entry timestamp only (no time.Now)")
-	// constants agree
-	cs, _ := ConstInt(Args(store)[1])
-	a0, _ := ConstInt(Args(adds[0])[1])
-	a1, _ := ConstInt(Args(adds[1])[1])
-	retC := int64(-1)
-	for _, r := range Returns(fn) {
-		if v, ok := ConstInt(RetVals(r)[0]); ok {
-			retC = v
+	want := map[string]string{
+		"load ; open ; add(1) ; ret(add)":                            "open-window-branch",
+		"load ; elapsed ; store(1) ; cas ; won ; ret(1)":             "reset-branch",
+		"load ; elapsed ; store(1) ; cas ; lost ; add(1) ; ret(add)": "lost-race-branch",
+	}
+	got := map[string]bool{}
+	var bad []string
+	for _, sq := range seqs {
+		if _, ok := want[sq]; ok {
+			got[sq] = true
+		} else {
+			bad = append(bad, sq)
 		}
 	}
-	c.Check(cs == 1 && a0 == 1 && a1 == 1 && retC == 1, "R11.8", name, "constant-one", fn.Pos(), "the window restarts at the same constant that each entry adds and that the resetting entry reports (store=%d add=%d/%d return=%d)", cs, a0, a1, retC)
-	// no-reset branch
-	for k, r := range Returns(fn) {
-		v := Strip(RetVals(r)[0])
-		atoms := AtomStrings(Guards(r))
-		switch {
-		case v == ssa.Value(adds[0]) || v == ssa.Value(adds[1]):
-			add := v.(*ssa.Call)
-			if !Dominates(store, add) {
-				// open-window branch
-				ok := len(atoms) == 1 && (atoms[0] == Desc(load)+" > "+tn || atoms[0] == Desc(load)+" >= "+tn)
-				c.Check(ok, "R11.8", name, "open-window-branch#"+itoa(k+1), r.Pos(), "the count continues exactly when the stored window end compares later than the entry's timestamp, under that single comparison (guards %v); any extra condition re-opens budgets for some timestamps", atoms)
-			} else {
-				ok := len(atoms) >= 1 && containsS(atoms, "!"+Desc(cas))
-				c.Check(ok, "R11.8", name, "lost-race-branch#"+itoa(k+1), r.Pos(), "a lost compare-and-swap falls back to counting in the window the winner opened (guards %v)", atoms)
-			}
-		default:
-			if cv, isC := ConstInt(v); isC {
-				c.Check(containsS(atoms, Desc(cas)) && cv == 1, "R11.8", name, "reset-branch#"+itoa(k+1), r.Pos(), "the entry that installs the new window reports count 1 (guards %v)", atoms)
-			}
-		}
+	c.Check(len(bad) == 0, "R11.8", name, "no-other-path", fn.Pos(), "IncCheckReset has no path besides the three of the window protocol, is driven by the entry timestamp only (no wall clock) and tests nothing but the window comparison and the compare-and-swap result (other paths: %v)", bad)
+	for sq, slot := range want {
+		msg := map[string]string{
+			"open-window-branch": "while the stored window end compares later than the entry's timestamp (that single comparison; > vs >= not decided) the entry is counted with Add(1) and that count is returned",
+			"reset-branch":       "otherwise the counter restarts at 1, then the window end loaded at the top is replaced by timestamp + tick with a compare-and-swap, and the winner reports count 1",
+			"lost-race-branch":   "a lost compare-and-swap falls back to Add(1) in the window the winner opened and returns that count",
+		}[slot]
+		c.Check(got[sq], "R11.8", name, slot, fn.Pos(), "%s (path: %s)", msg, sq)
 	}
-	ca := Args(cas)
-	c.Check(Desc(ca[0]) == "c.resetAt" && Strip(ca[1]) == ssa.Value(load) && Desc(ca[2]) == "("+tn+" + Nanoseconds(tick))" && Dominates(store, cas), "R11.8", name, "cas-installs-next-window", cas.Pos(), "the new window end timestamp + tick replaces exactly the value loaded at the top, after the counter restart (%s → %s)", Desc(ca[1]), Desc(ca[2]))
 }
 
 func containsS(l []string, s string) bool {
